@@ -13,10 +13,12 @@ def ref_count_() -> Callable[[ConnectableObservable[_T]], Observable[_T]]:
     observable sequence.
     """
 
-    connectable_subscription: abc.DisposableBase | None = None
-    count = 0
-
     def ref_count(source: ConnectableObservable[_T]) -> Observable[_T]:
+        # The subscriber count and the connection belong to this connectable,
+        # not to the operator function (which may be applied to many sources).
+        connectable_subscription: abc.DisposableBase | None = None
+        count = 0
+
         def subscribe(
             observer: abc.ObserverBase[_T],
             scheduler: abc.SchedulerBase | None = None,
